@@ -36,6 +36,7 @@ def shards(tier, seed):
     out += [dict(kind='syntax', part=i, parts=4) for i in range(4)]
     out += [dict(kind='stereo', shard=i, n=60 if tier == 'quick' else 800) for i in range(2)]
     out += [dict(kind='elements', zs=list(range(z, min(z + 15, 119)))) for z in range(1, 119, 15)]
+    out.append(dict(kind='ctring'))
     return out
 
 
@@ -72,6 +73,8 @@ bond_query = st.fixed_dictionaries({
 def run_shard(shard, tier, seed):
     if shard.get('kind') == 'syntax':
         return direct_run(ID, syntax_cases(shard), check_case)
+    if shard.get('kind') == 'ctring':
+        return direct_run(ID, ctring_cases(), check_case)
     if shard.get('kind') == 'elements':
         return direct_run(ID, [{'element': z} for z in shard['zs']], check_case)
     if shard.get('kind') == 'stereo':
@@ -308,7 +311,53 @@ def check_elements(case, rec):
     rec.sample('element-sweep', dict(element=sym, lists=[','.join(L) for L in lists[:4]]), cap=3)
 
 
+CT_TARGETS = ['C/C=C/C', 'C/C=C\\C', 'CC=CC', 'C1CCC/C=C/CCCC1', 'C1CCC/C=C\\CCCC1', 'C1CCCC=CCCCC1', 'C/C=C/C1CCC/C=C\\CCCC1',
+              'C/N=C/C', 'C1CCC/C=N/CCCC1', 'CC#CC', 'C/C=C/C=C/C']
+CT_MARKS = [('', ''), ('/', '/'), ('/', '\\'), ('\\', '/')]
+CT_BONDS = ['=', '-,=', '=,#']  # the tokenizer supports lists of two orders
+CT_RING = ['', ';@', ';!@']
+
+
+def ctring_cases():
+    for t in CT_TARGETS:
+        for m1, m2 in CT_MARKS:
+            for b in CT_BONDS:
+                for a2 in ('C', 'N', '[C,N]'):
+                    yield {'ctring': t, 'marks': [m1, m2], 'bond': b, 'end': a2}
+
+
+def check_ctring(case, rec):
+    """ring / non-ring marks on a bond that also carries cis/trans marks: the mark must select exactly the ring (non-ring) members of
+    what the same query without the mark matches (metamorphic: no assumption about stereo matching itself)"""
+    from chython import smarts, smiles
+    t = smiles(case['ctring'])
+    ring_bonds = {frozenset((a, b)) for a, b, bond in t.bonds() if bond.in_ring}
+    m1, m2 = case['marks']
+    res = {}
+    for r in CT_RING:
+        text = f'C{m1}C{case["bond"]}{r}{case["end"]}{m2}C'
+        ok, q = rec.guard('smarts-parse', smarts, text)
+        if not ok:
+            return
+        ok, got = rec.guard('match', lambda: {tuple(mp[k] for k in q) for mp in q.get_mapping(t, automorphism_filter=False)})
+        if not ok:
+            return
+        res[r] = got
+        rec.evaluations += 1
+    for r, inside in ((';@', True), (';!@', False)):
+        want = {mp for mp in res[''] if (frozenset((mp[1], mp[2])) in ring_bonds) == inside}
+        if res[r] != want:
+            rec.fail('bond-primitive', f'C{m1}C{case["bond"]}{r}{case["end"]}{m2}C on {case["ctring"]!r}: {len(res[r])} matches, the query '
+                                       f'without the ring mark has {len(res[""])} of which {len(want)} lie {"in" if inside else "outside"} '
+                                       f'a ring', sig='ring-mark-with-stereo' if m1 else 'ring-mark')
+            return
+    if res['']:
+        rec.nt(('ctring', case['ctring'], m1, m2, case['bond'], case['end']))
+
+
 def check_case(case, rec):
+    if 'ctring' in case:
+        return check_ctring(case, rec)
     if 'element' in case:
         return check_elements(case, rec)
     if 'syntax' in case:
